@@ -34,10 +34,10 @@ KINDS = {
     "weights-present-nonneg": r"^LT0\[L0_2\[flow_attr\]\] @ self\.edges|^not \(flow_attr in L0_2\) @ self\.edges",
     "conservation": r"satisfies_flow_conservation|check_flow_conservation",
     "constraint-shape-membership": r"^not \(self\.G\.has_edge\(L1_0\[0\], L1_0\[1\]\)\) @ L0_0",
-    "coverage-range": r"^LE0\[self\.sub(path|set)_constraints_coverage\]",
+    "coverage-range": r"^LE0\[(self\.)?sub(path|set)_constraints_coverage\]",
     "k-positive": r"^LE0\[k\]",
     "weight-type": r"^not \((self\.)?weight_type in \[int, float\]\)",
-    "origin-or-cover-type": r"^not \('edge' == self\.(flow_attr_origin|cover_type)\)",
+    "origin-or-cover-type": r"^not \('edge' == (self\.)?(flow_attr_origin|cover_type)\)",
     "additional-start-end-membership": r"^not \(self\.additional_(starts|ends)\.issubset\(base_graph\.nodes\(\)\)\)",
     "error-scaling-range": r"^LT0\[L0_1\] @ .*error_scaling\.items\(\)|^not \(LE0\[-1 \+ L0_1\]\) @ .*error_scaling\.items\(\)",
     "ignore-list-shape": r"^not \(isinstance\(L0_0, str\)\) @ elements_to_ignore|isinstance\(L\d_0, tuple\).* @ (elements_to_ignore|L0_0)",
